@@ -14,6 +14,8 @@ sample = base.dispatch_sample
 def make(family, rng, tier):
     if family == "ex":
         return exgen.gen(rng, PROP, tier)
+    if family == "storm":
+        return exgen.gen_storm(rng, PROP, tier)
     scn = sysgen.gen_preempt(rng, tier) if rng.random() < (0.7 if PROP == "C10" else 0.3) else sysgen.gen(rng, None, PROP, tier, offgrid=True)
     scn["oracles"] = ["model"]
     return scn
@@ -21,4 +23,4 @@ def make(family, rng, tier):
 
 def plan(tier):
     q = tier == "quick"
-    return [("ex", 4000 if q else 60000), ("sysmodel", 1500 if q else 30000)]
+    return [("ex", 4000 if q else 60000), ("sysmodel", 1500 if q else 30000), ("storm", 6 if q else 100)]
